@@ -25,11 +25,11 @@ MCOrigins == {ABSENT, O1, O2, O3, O1CASE, O1PART}
 
 Star == [star |-> TRUE, set |-> {}]
 Set(S) == [star |-> FALSE, set |-> S]
-MCAllowOrigins == {Star, Set({O1}), Set({O1, O2})}
+MCAllowOrigins == {Star, Set({O1}), Set({O1, O2}), Set({})}      \* Set({}): an empty collection - nobody is allowed
 MCAllowCreds   == {Set({}), Star, Set({O1}), Set({O2, O3})}
-MCExpose       == {<<>>, <<"X-A">>, <<"X-A", "X-B">>}
+MCExpose       == IF OtherForAll THEN {<<>>, <<"X-A">>, <<"X-A", "X-B">>} ELSE {<<>>, <<"X-A", "X-B">>}    \* (quick: two of the three)
 MCCfgs   == {[ao |-> a, ac |-> c, eh |-> e] : a \in MCAllowOrigins, c \in MCAllowCreds, e \in MCExpose}
-FewCfgs  == {DefaultCfg, [ao |-> Set({O1}), ac |-> Set({O1}), eh |-> <<"X-A">>], [ao |-> Star, ac |-> Star, eh |-> <<"X-A", "X-B">>]}
+FewCfgs  == {DefaultCfg, [ao |-> Set({O1}), ac |-> Set({O1}), eh |-> <<"X-A", "X-B">>], [ao |-> Star, ac |-> Star, eh |-> <<"X-A", "X-B">>]}
 MCOthers == {[kind |-> k, pos |-> q] : k \in {"respfail", "complete"}, q \in {"before", "after"}}
 (* Access-Control-Request-Headers only accompanies Access-Control-Request-Method *)
 MCRequests == {rq \in {Rq(o, m, p, a, hh) : o \in MCOrigins, m \in MCMethods, p \in MCPaths, a \in {ABSENT, "POST"},
@@ -40,7 +40,10 @@ XMakeEnable   == MakeEnable
 XMakeExplicit == \E c \in MCCfgs : MakeExplicit(c)
 XGuard        == AddCorsAgainRejected
 XAddOther     == (OtherForAll \/ cfg \in FewCfgs) /\ (guard = 0) /\ \E o \in MCOthers : AddOther(o.kind, o.pos)
-XExchange     == \E rq \in MCRequests, beh \in Behaviours : Exchange(rq, beh)
+(* the ways of answering by raising (other than the plain "fail") are a dimension of OPTIONS requests only *)
+XExchangeOne(rq, beh) == /\ (beh \in RaisingBehaviours \ {"fail"}) => rq.m = "OPTIONS"
+                         /\ Exchange(rq, beh)
+XExchange     == \E rq \in MCRequests, beh \in Behaviours : XExchangeOne(rq, beh)
 MCNext == XMakeEnable \/ XMakeExplicit \/ XGuard \/ XAddOther \/ XExchange
 
 (* export: the app once (from the initial state), then one row per cell *)
